@@ -164,6 +164,14 @@ var (
 		netip.MustParseAddr("2001:db8::c"), netip.MustParseAddr("fe80::d")}
 )
 
+// manyHost is the address of solicitor number id >= len(vfHosts) (scenarios with hundreds of
+// distinct solicitors): fe80::5eed:<id>.
+func manyHost(id int) netip.Addr {
+	b := netip.MustParseAddr("fe80::5eed:0").As16()
+	b[14], b[15] = byte(id>>8), byte(id)
+	return netip.AddrFrom16(b)
+}
+
 // hostID maps a destination/source to the small ids of the case lines: 0 = :: / ff02::1.
 func hostID(a netip.Addr) int {
 	if a == vfAllNodes {
@@ -173,6 +181,9 @@ func hostID(a netip.Addr) int {
 		if h == a.WithZone("") {
 			return i
 		}
+	}
+	if b := a.WithZone("").As16(); a.Is6() && b[0] == 0xfe && b[1] == 0x80 && b[12] == 0x5e && b[13] == 0xed {
+		return int(b[14])<<8 | int(b[15])
 	}
 	return 99
 }
